@@ -206,9 +206,123 @@ def large_step_tree(run, rng, quick):
     return done
 
 
+def zero_padded_ps(run, rng, quick):
+    """sufficient bond dimension reached by padding with EXACT zeros (a product state plus a random state scaled by 0, then
+    canonicalised) instead of the usual 1e-5 noise: the one-site projector splitting must still use the padded directions
+    and follow the dense propagator (two particles on six orbitals, random tree, ten steps of 0.05)."""
+    import scipy.linalg
+    from renormalizer.model import Op
+    from renormalizer.model.basis import BasisSimpleElectron
+    from renormalizer.tn import BasisTree, TTNO, TTNS, TreeNodeBasis
+    from renormalizer.utils import EvolveConfig, EvolveMethod
+    done = 0
+    for _ in range(2 if quick else 10):
+        n = 6
+        parent = [-1] + [int(rng.integers(0, i)) for i in range(1, n)]
+        nodes = [TreeNodeBasis([BasisSimpleElectron(i)]) for i in range(n)]
+        for i in range(1, n):
+            nodes[parent[i]].add_child(nodes[i])
+        terms = []
+        for i in range(n):
+            terms.append(Op(r"a^\dagger a", i, float(rng.uniform(-1, 1))))
+            for j in range(i + 1, n):
+                t = float(rng.uniform(0.3, 1.0))
+                terms.append(Op(r"a^\dagger a", [i, j], t))
+                terms.append(Op(r"a^\dagger a", [j, i], t))
+                terms.append(Op(r"a^\dagger a a^\dagger a", [i, i, j, j], float(rng.uniform(-1, 1))))
+        occ = [int(x) for x in rng.choice(n, size=2, replace=False)]
+        info = dict(parent=parent, occupied=occ, terms=[(t.symbol, list(t.dofs), float(t.factor)) for t in terms])
+        try:
+            tree = BasisTree(nodes[0])
+            ttno = TTNO(tree, terms)
+            h = np.asarray(ttno.todense()).reshape(2 ** n, 2 ** n)
+            prod = TTNS(tree, {occ[0]: 1, occ[1]: 1})
+            np.random.seed(int(rng.integers(2 ** 31)))
+            pad = TTNS.random(tree, 2, 20).scale(0.0, inplace=True)
+            psi = prod + pad
+            psi.canonicalise()
+            dims0 = [int(b) for b in psi.bond_dims]
+            v0 = np.asarray(psi.todense()).ravel()
+            psi.evolve_config = EvolveConfig(EvolveMethod.tdvp_ps)
+            tau, nsteps = 0.05, 10
+            cur = psi
+            for _s in range(nsteps):
+                cur = cur.evolve(ttno, tau)
+            v = np.asarray(cur.todense()).ravel()
+        except Exception as e:  # noqa
+            run.violation(f"zero-padded:tdvp_ps:raises:{type(e).__name__}", dict(info, error=repr(e)[:300]))
+            continue
+        vex = scipy.linalg.expm(-1j * h * tau * nsteps) @ v0
+        err = float(np.linalg.norm(v - vex))
+        done += 1
+        run.count("zero-padded:tdvp_ps")
+        run.sample(dict(part="zero-padded", err=err, bond_dims_before=dims0, bond_dims_after=[int(b) for b in cur.bond_dims]), limit=8)
+        if err > 1e-2:
+            run.violation("zero-padded:tdvp_ps:sufficient-bond:vs-expm",
+                          dict(info, err=err, bond_dims_before=dims0, bond_dims_after=[int(b) for b in cur.bond_dims],
+                               what="bonds padded to sufficient dimension with exact zeros: the evolved state must follow exp(-iHt)"))
+    return done
+
+
+def unit_scaling_pc(run, rng, quick):
+    """the same physics in other energy units (H -> s H, tau -> tau / s, s = 1e-4 .. 1e-6): every scheme must return the same
+    state (nothing may compare H^k|psi> with an absolute threshold)."""
+    import scipy.linalg
+    import lib_tree as lt
+    from renormalizer.model import Op
+    from renormalizer.tn.tree import TTNO, TTNS
+    from renormalizer.utils import EvolveConfig, EvolveMethod, CompressConfig, CompressCriteria
+    done = 0
+    for _ in range(2 if quick else 8):
+        nspin = int(rng.integers(4, 7))
+        descs = lt.random_basis_descs(rng, nspin, qn_mode="none", kinds=["spin"])
+        descs2, spec = lt.random_tree_spec(rng, descs, n_dummy=0, max_group=1)
+        basis_list = lt.make_basis_list(descs2)
+        tree, nodes = lt.build_basis_tree(spec, basis_list)
+        dofs = [b.dof for b in basis_list if b.nbas == 2]
+        base = [("sigma_x sigma_x", [dofs[i], dofs[j]], float(rng.uniform(0.3, 1.0))) for i in range(nspin) for j in range(i + 1, nspin)
+                if rng.random() < 0.6] + [("sigma_z", [d], float(rng.uniform(-1, 1))) for d in dofs]
+        s_unit = float(10 ** rng.uniform(-6, -4))
+        method = [EvolveMethod.prop_and_compress_tdrk4, EvolveMethod.tdvp_ps, EvolveMethod.tdvp_ps2][int(rng.integers(3))] \
+            if rng.random() < 0.4 else EvolveMethod.prop_and_compress_tdrk4
+        imag = bool(rng.random() < 0.3)
+        info = dict(spec=spec, unit=s_unit, method=method.name, imaginary_time=imag, terms=base)
+        outs = []
+        try:
+            np_seed = int(rng.integers(2 ** 31))
+            for s in (1.0, s_unit):
+                ops = [Op(sym, d if len(d) > 1 else d[0], f * s) for sym, d, f in base]
+                ttno = TTNO(tree, ops)
+                np.random.seed(np_seed)
+                ttns = TTNS.random(tree, 0, 2 ** (nspin // 2), 1.0)
+                ttns.evolve_config = EvolveConfig(method)
+                ttns.compress_config = CompressConfig(CompressCriteria.fixed, max_bonddim=2 ** (nspin // 2))
+                if s == 1.0:
+                    h = np.asarray(ttno.todense()).reshape(2 ** nspin, 2 ** nspin)
+                    v0 = np.asarray(ttns.todense()).ravel()
+                    width = float(np.ptp(np.linalg.eigvalsh(h)))
+                    tau = 0.4 / width
+                cur = ttns
+                for _s in range(4):
+                    cur = cur.evolve(ttno, (-1j if imag else 1.0) * tau / s, normalize=False)
+                outs.append(np.asarray(cur.todense()).ravel())
+        except Exception as e:  # noqa
+            run.violation(f"unit-scaling:{method.name}:raises:{type(e).__name__}", dict(info, error=repr(e)[:300]))
+            continue
+        ref = scipy.linalg.expm((-1.0 if imag else -1j) * 4 * tau * h) @ v0
+        e1 = float(np.linalg.norm(outs[0] - ref) / np.linalg.norm(ref))
+        e2 = float(np.linalg.norm(outs[1] - ref) / np.linalg.norm(ref))
+        done += 1
+        run.count(f"unit-scaling:{method.name}:{'imag' if imag else 'real'}")
+        if e2 > 10 * e1 + 1e-7:
+            run.violation(f"unit-scaling:{method.name}:result-depends-on-energy-unit",
+                          dict(info, err_unit_1=e1, err_small_unit=e2, what="H -> s H with tau -> tau / s must give the same state"))
+    return done
+
+
 if __name__ == "__main__":
     common.main_wrapper(lambda: generic_check.run_check(
-        "C12", "other", ["RenoVerif/Props/C12.lean", "RenoVerif/Props/C09.lean", "RenoVerif/Props/C09Conserve.lean"], [l2_ps2_counts, l2_sweep_events, large_step_tree],
+        "C12", "other", ["RenoVerif/Props/C12.lean", "RenoVerif/Props/C09.lean", "RenoVerif/Props/C09Conserve.lean"], [l2_ps2_counts, l2_sweep_events, large_step_tree, zero_padded_ps, unit_scaling_pc],
         ["error orders, conservation laws, agreement with the chain implementation are numerical (dense oracle)",
          "local Krylov exponentials are parameters (C18 contract)"],
         "random spin trees (2-4 nodes + optional dummy) x tdvp_ps2 step: two-site step count vs edges",
